@@ -9,6 +9,7 @@ import Adb.Spec.Options
 import Adb.Model.Wire
 import Adb.Model.Lists
 import Adb.Model.Url
+import Adb.Model.ContentBlocking
 /-
   One-line-in / one-line-out driver.  Every answer has the form  `M=<model> S=<spec> D=<0|1>`:
   the output of the model that mirrors the code, the output of the reference semantics, and whether
@@ -45,6 +46,51 @@ def showMeta (m : Lists.Meta) : String :=
     | some (.hours n) => s!"H{n}"
     | some (.days n) => s!"D{n}"
   ";".intercalate [optHex m.homepage, optHex m.title, e, optHex m.redirect]
+
+def showOptList (o : Option (List Str)) : String :=
+  match o with
+  | none => "-"
+  | some l => "+" ++ ",".intercalate (l.map hex)
+
+/-- `typ;selector;urlFilter;caseSensitive;ifDomain;unlessDomain;resourceTypes;loadTypes` -/
+def showCb (r : CB.CbRule) : String :=
+  let typ := match r.typ with
+    | .block => "block"
+    | .cssDisplayNone => "css"
+    | .ignorePrevious => "ignore"
+  let rts := match r.resourceTypes with
+    | none => "-"
+    | some l => "+" ++ ",".intercalate (l.toArray.qsort (· < ·)).toList
+  let lts := ",".intercalate (r.loadType.map fun l => match l with | .firstParty => "1p" | .thirdParty => "3p")
+  ";".intercalate [typ, optHex r.selector, hex r.urlFilter, (if r.caseSensitive then "1" else "0"),
+    showOptList r.ifDomain, showOptList r.unlessDomain, rts, lts]
+
+def parseLocs (s : String) : Option (List (Nat × Option Str)) :=
+  if s.isEmpty then some [] else
+  (s.splitOn ",").mapM fun item =>
+    match item.splitOn "." with
+    | [k, e] => do
+      let k ← k.toNat?
+      let e ← unoptHex e
+      pure (k, e)
+    | _ => none
+
+inductive CbItem where
+  | net (r : Rule) (raw : Str)
+  | cos (c : CB.CosIn)
+
+def parseCbItem (s : String) : Option CbItem :=
+  match s.splitOn "!" with
+  | ["N", rd, raw] => do
+    let r ← parseRule rd
+    let raw ← unhex raw
+    pure (.net r raw)
+  | ["C", raw, a, sc, u, plain, locs] => do
+    let raw ← unhex raw
+    let plain ← unoptHex plain
+    let locs ← parseLocs locs
+    pure (.cos { raw, hasAction := a == "1", scriptInject := sc == "1", unhide := u == "1", plain, locs })
+  | _ => none
 
 def showDots (l : List Hash) : String := ".".intercalate (l.map toString)
 
@@ -90,6 +136,32 @@ def step (line : String) : String :=
       ans (optHex (Removeparam.rewrittenUrl important url names))
           (optHex (Removeparam.spec important url names)) true
     | _, _ => "bad-op"
+  -- C20: content-blocking conversion (one rule / a whole set)
+  | ["cbn", item] => match parseCbItem item with
+      | some (.net r raw) =>
+        let o := match CB.convNet r raw with
+          | .ok rules => "OK:" ++ "|".intercalate (rules.map showCb)
+          | .error e => "ERR:" ++ e
+        ans o o true
+      | _ => "bad-op"
+  | ["cbc", item] => match parseCbItem item with
+      | some (.cos c) =>
+        let o := match CB.convCos c with
+          | .ok rule => "OK:" ++ showCb rule
+          | .error e => "ERR:" ++ e
+        ans o o true
+      | _ => "bad-op"
+  | "cbset" :: items => match (items.filter (· != "")).mapM parseCbItem with
+      | some its =>
+        let net := its.filterMap fun i => match i with | .net r raw => some (r, raw) | _ => none
+        let cos := its.filterMap fun i => match i with | .cos c => some c | _ => none
+        let (rules, used) := CB.intoContentBlocking net cos
+        let o := "|".intercalate (rules.map showCb) ++ "#" ++ ",".intercalate (used.map hex)
+        -- the reference output is the model's, marked when a url-filter leaves the Safari subset
+        let bad := rules.filter fun r => !CB.safariOk r.urlFilter
+        let sp := if bad.isEmpty then o else "OUTSIDE-SUBSET"
+        ans o sp true
+      | none => "bad-op"
   -- C12: the URL scanner and the request constructors
   | ["url", u, hint] => match unhex u, unoptHex hint with
       | some url, some h =>
